@@ -303,6 +303,8 @@ package buffer
 //@   at_call b.next.ServeHTTP {C15} within_declared_limit: !(b.maxRequestBodyBytes > 0 && req.ContentLength > b.maxRequestBodyBytes)
 //@   at_call b.next.ServeHTTP {C06} fresh_copy: arg1 != req && fresh(arg1) && fresh(arg1.URL) && fresh(arg1.Header)
 //@   at_call b.next.ServeHTTP {C06} true_length_no_chunking: arg1.ContentLength == totalSize && len(arg1.TransferEncoding) == 0
+//@   at_call b.next.ServeHTTP {C06} length_is_what_the_buffered_body_reported: calls(Size) == 1 && totalSize == callres(Size, 0, 0)
+//@   at_call b.next.ServeHTTP {C06} a_non_empty_body_is_handed_over: totalSize > 0 ==> body != nil
 //@   at_call b.next.ServeHTTP {C06} same_method_and_headers: arg1.Method == req.Method && (forall k string :: header(arg1.Header, k) == header(req.Header, k))
 //@   at_call b.next.ServeHTTP {C06} body_from_the_first_byte: body == nil || body.pos == 0
 //@   at_call b.next.ServeHTTP {C07} bounded_attempts: 1 <= attempt && attempt <= 11
@@ -319,6 +321,7 @@ package buffer
 //@   loop 1 invariant 1 <= attempt && attempt <= 11
 //@   loop 1 invariant req.URL == old(req.URL) && req.ContentLength == old(req.ContentLength) && req.Method == old(req.Method) && req.Header == old(req.Header) && (forall k string :: header(req.Header, k) == old(header(req.Header, k)))
 //@   loop 1 invariant body == nil || body.pos == 0
+//@   loop 1 invariant totalSize > 0 ==> body != nil
 //@   loop 1 invariant outReq != nil && outReq != req && fresh(outReq) && outReq.ContentLength == totalSize && len(outReq.TransferEncoding) == 0 && outReq.Method == req.Method && fresh(outReq.URL) && fresh(outReq.Header) && (forall k string :: header(outReq.Header, k) == header(req.Header, k))
 //@   loop 1 invariant !(b.maxRequestBodyBytes > 0 && req.ContentLength > b.maxRequestBodyBytes)
 
